@@ -353,13 +353,27 @@ def show_mini(v):
     return f"Int({v[1]})" if v[0] == "int" else f"Bool({'true' if v[1] else 'false'})"
 
 
+def variants(tokens):
+    """the scenario's token sequence, and the same with a zero divisor: a constant that fails is what
+    the laziness of `||`, `&&`, `?:` has to be confronted with, and the solver's model need not
+    pick one"""
+    out = [tokens]
+    for i in range(1, len(tokens)):
+        if tokens[i][0] == "IntLit" and tokens[i - 1][0] in ("Divide", "Mod") and tokens[i][1] != 0:
+            out.append(tokens[:i] + [("IntLit", 0)] + tokens[i + 1:])
+    return out
+
+
 def replay_grammar(run, exe, failures):
     tried, seen = [], set()
+    work = []
     for f in failures:
         sc = f.get("scenario")
         if not sc or sc.get("kind") not in ("grammar", "tokens"):
             continue
-        tokens = [tuple(t) for t in sc["tokens"]]
+        for v in variants([tuple(t) for t in sc["tokens"]]):
+            work.append((f, sc, v))
+    for f, sc, tokens in work:
         words = words_of(tokens)
         if not words:
             continue
